@@ -106,7 +106,7 @@ def tla_value(v):
 
 def write_cfg(path, spec, constants, invariants=(), properties=(), constraint=None, view=None,
               action_constraint=None, postcondition=None):
-    lines = ["SPECIFICATION " + spec, "CONSTANTS"]
+    lines = ["SPECIFICATION " + spec] + (["CONSTANTS"] if constants else [])
     for k, v in constants.items():
         lines.append("  %s = %s" % (k, tla_value(v)))
     if invariants:
